@@ -1096,6 +1096,7 @@ package fpgo
 //@   prop C05
 //@   ghost g (Array Int Int)
 //@   ghost pos (Array Int Int)
+//@   ensures shorter: len(r0) <= len(set1)
 //@   ensures sub: forall(j, 0, len(r0), 0 <= g[j] && g[j] < len(set1) && r0[j] == set1[g[j]] && !CONTAINS(set2, set1[g[j]]))
 //@   ensures mono: forall(j, 0, len(r0), forall(l, 0, j, g[l] < g[j]))
 //@   ensures all: forall(k, 0, len(set1), !CONTAINS(set2, set1[k]) ==> 0 <= pos[k] && pos[k] < len(r0) && g[pos[k]] == k)
